@@ -1037,3 +1037,9 @@ func (a *E3) calleeNames(fn *ssa.Function) []string {
 	sort.Strings(out)
 	return out
 }
+
+// isPtrField: the address is that of a container's registered-ego field.
+func (a *E3) isPtrField(fa *ssa.FieldAddr) bool {
+	fld := a.structField(fa.X, fa.Field)
+	return fld != nil && a.isContainerPtr(fa.X.Type()) && !a.isSpine(fld.Type()) && a.isFieldIface(fld.Type())
+}
